@@ -114,3 +114,47 @@ Proof.
   - rewrite (H1 r) by (left; reflexivity). rewrite (H2 r') by (left; reflexivity). rewrite Hg. reflexivity.
   - apply IH; intros x Hx; [apply H1|apply H2]; right; exact Hx.
 Qed.
+
+(* ------------------------------------------------------------------ Interface::operator==, Selection, flag-set algebra *)
+Lemma list_eqb_eq : forall a b, c05_list_eqb a b = true <-> a = b.
+Proof.
+  induction a as [|x a IH]; destruct b as [|y b]; simpl; split; intros H; try reflexivity; try discriminate.
+  - apply andb_true_iff in H. destruct H as [H1 H2]. apply Nat.eqb_eq in H1. apply IH in H2. congruence.
+  - inversion H; subst. rewrite Nat.eqb_refl. simpl. apply IH. reflexivity.
+Qed.
+
+Lemma P_iface_eqb : forall m o, c05_iface_eqb m o = true <-> m = o.
+Proof.
+  induction m as [|[q [s r]] m IH]; destruct o as [|[q' [s' r']] o]; simpl; split; intros H; try reflexivity; try discriminate.
+  - repeat (apply andb_true_iff in H; destruct H as [H ?]).
+    apply Nat.eqb_eq in H. apply list_eqb_eq in H2. apply list_eqb_eq in H1. apply IH in H0. congruence.
+  - inversion H; subst. rewrite Nat.eqb_refl. simpl.
+    rewrite (proj2 (list_eqb_eq s' s') eq_refl), (proj2 (list_eqb_eq r' r') eq_refl). simpl. apply IH. reflexivity.
+Qed.
+
+(* the tree's operator== (F-C05-2) accepts different interfaces *)
+Lemma P_iface_eqb_tree_refuted :
+  c05_iface_eqb_tree [(1, ([1], [2]))] [(1, ([2], [1]))] = true /\ [(1, ([1], [2]))] <> [(1, ([2], [1]))].
+Proof. split; [vm_compute; reflexivity|discriminate]. Qed.
+
+Lemma P_selection_spec : forall s is l,
+  In l (c05_selection s is) <-> exists e, In e is /\ c05_ie_l e = l /\ c05_contains s (c05_ie_a e) = true.
+Proof.
+  intros s is l. unfold c05_selection. rewrite in_map_iff. split.
+  - intros [e [Hl Hin]]. apply filter_In in Hin. exists e. tauto.
+  - intros [e [Hin [Hl Hc]]]. exists e. split; [exact Hl|]. apply filter_In. tauto.
+Qed.
+
+Lemma P_flagset_algebra : forall s t x i a b,
+  c05_contains C05_Empty x = false /\ c05_contains C05_All x = true /\
+  (c05_contains (C05_Item i) x = true <-> x = i) /\
+  (c05_contains (C05_Range a b) x = true <-> a <= x <= b) /\
+  c05_contains (C05_Negate s) x = negb (c05_contains s x) /\
+  c05_contains (C05_Combine s t) x = c05_contains s x || c05_contains t x.
+Proof.
+  intros. simpl. repeat split; try reflexivity.
+  - apply Nat.eqb_eq. - apply Nat.eqb_eq.
+  - apply andb_true_iff in H. destruct H as [H _]. apply Nat.leb_le. exact H.
+  - apply andb_true_iff in H. destruct H as [_ H]. apply Nat.leb_le. exact H.
+  - intros [H1 H2]. apply andb_true_iff. split; apply Nat.leb_le; assumption.
+Qed.
